@@ -444,7 +444,7 @@ def running_order(draw, min_stories=0, max_stories=6, max_items=4, rich=True,
         children.insert(children.index(stories[k_]),
                         E(ns_ + 'story', E(ns_ + 'storyID', text=stories[k_].findtext('storyID')),
                           E(ns_ + 'storySlug', text='archived version'), E('storyID', text='NESTED-IN-NS')))
-    ro_id = ro_id or draw(st.sampled_from(['RO1', 'RO ID', 'ro;1&2']))
+    ro_id = ro_id or draw(st.sampled_from(['RO1', 'RO ID', 'ro;1&2', 'RO1', 'RO ID', 'ro;1&2', 'RO 7 ', '\u00a0RO8']))
     ed = draw(st.sampled_from([None, '', '2020-01-01T12:30:00', '2021-03-04T05:06:07.5', ' 2020-01-01T12:30:00 ',
                                '\n      2021-03-04T05:06:07\n    ']))
     slug = draw(st.sampled_from(['RO SLUG', 'slug & <co>']))
@@ -515,10 +515,13 @@ def id_list(draw, existing, unknown_pool, faults, min_size=1, max_size=4, degene
 
 @st.composite
 def message(draw, state, ro_id, kinds=B.ALL_KINDS, faults='some', rich=True, mid=None,
-            degenerate=False, dup_inserts=True, timing_mode='any', stale_s=(), stale_i=()):
+            degenerate=False, dup_inserts=True, timing_mode='any', stale_s=(), stale_i=(), foreign_ro=False):
     """Draw one schema-shaped message against `state` [(sid, [iids])].
     -> (kind_label, msg_xml)"""
     kind = draw(st.sampled_from(list(kinds)))
+    if foreign_ro and draw(st.integers(0, 11)) == 0:
+        # addressed to another running order (merged directly, the roID is not looked at)
+        ro_id = draw(st.sampled_from(['OTHER-RO', '', ro_id + ' ']))
     # elements whose ID tag is empty cannot be named by any reference
     state = [(s, [i for i in its if i is not None]) for s, its in state if s is not None]
     sids = [s for s, _ in state]
@@ -754,7 +757,7 @@ META_KINDS = ['roMetadataReplace', 'roReplace', 'roReadyToAir', 'roDelete']
 @st.composite
 def step_case(draw, kinds=B.ALL_KINDS, faults='some', rich=True, min_stories=0,
               max_stories=6, max_items=4, degenerate=False, timing_mode='any',
-              simple_ids=False, allow_no_slug=False):
+              simple_ids=False, allow_no_slug=False, foreign_ro=True):
     from xml.etree import ElementTree as ET
     from . import xmlcmp
     ro = draw(running_order(min_stories=min_stories, max_stories=max_stories,
@@ -762,7 +765,7 @@ def step_case(draw, kinds=B.ALL_KINDS, faults='some', rich=True, min_stories=0,
                             simple_ids=simple_ids, allow_no_slug=allow_no_slug, blank_ids=allow_no_slug))
     state = xmlcmp.state_of(ET.fromstring(ro['ro_xml']))
     kind, msg_xml = draw(message(state, ro['ro_id'], kinds=kinds, faults=faults, rich=rich,
-                                 degenerate=degenerate, timing_mode=timing_mode))
+                                 degenerate=degenerate, timing_mode=timing_mode, foreign_ro=foreign_ro))
     return {'ro_xml': ro['ro_xml'], 'msg_xml': msg_xml}
 
 
